@@ -3,6 +3,7 @@ from .. import facts, q
 from ..engine import Inconclusive, C, fmt, cmp_, truthy, subterms
 from ..common import site
 from . import owners
+from .ops import strip_casts as strip_casts_
 
 THIS_OBJ = owners.THIS_OBJ
 CB = "rlbox::sandbox_callback"
@@ -132,6 +133,11 @@ def check_register(rep, db, f, inst, style):
         backend = [i for i, e in enumerate(evs) if e.kind == "CALL" and q.short(e.a) == "impl_register_callback"]
         pushes = [i for i, e in enumerate(evs) if e.kind == "CALL" and q.short(e.a) in ("push_back", "emplace_back", "insert") and e.c is not None and "callback_keys" in fmt(e.c)]
         finds = [i for i, e in enumerate(evs) if e.kind == "CALL" and q.short(e.a) == "find"]
+        counted = False
+        if not finds:
+            # the duplicate test spelled as a count of occurrences (std::count(begin, end, key) == 0)
+            finds = [i for i, e in enumerate(evs) if e.kind == "CALL" and q.short(e.a) == "count" and len((e.extra or {}).get("argvals", e.b)) == 3]
+            counted = bool(finds)
         locks = [i for i, e in enumerate(evs) if e.kind == "CALL" and q.short(e.a) in q.EXCLUSIVE_GUARDS and "callback_lock" in " ".join(fmt(a) for a in e.b)]
         unlocks = [i for i, e in enumerate(evs) if e.kind == "UNLOCK"]
         bad = None
@@ -187,6 +193,23 @@ def check_register(rep, db, f, inst, style):
                 fret = (evs[finds[0]].extra or {}).get("ret")
                 # the negative outcome of the search must be asserted before inserting
                 dup_checked = any(e.kind == "ASSUME" and fret is not None and q.mentions(e.a, lambda x: same_obj(p, x, fret)) for e in evs[finds[0]:pushes[0]])
+                if counted:
+                    # a count: the surviving path must have asserted that it is zero
+                    def is_zero(c):
+                        if not isinstance(c, tuple):
+                            return False
+                        if c[:1] == ("not",):
+                            return same_obj(p, strip_casts_(c[1]), fret)
+                        if c[:1] == ("cmp",) and len(c) == 4:
+                            a_, b_ = strip_casts_(c[2]), strip_casts_(c[3])
+                            if c[1] == "==":
+                                return (same_obj(p, a_, fret) and b_ == C(0)) or (same_obj(p, b_, fret) and a_ == C(0))
+                            if c[1] == "<":
+                                return same_obj(p, a_, fret) and b_ == C(1)
+                            if c[1] == "<=":
+                                return same_obj(p, a_, fret) and b_ == C(0)
+                        return False
+                    dup_checked = any(e.kind == "ASSUME" and (e.extra or {}).get("abort_check") and is_zero(e.a) for e in evs[finds[0]:pushes[0]])
             elif evs[finds[0]].kind == "LOOPSKIP":
                 # empty key set on this path: nothing to compare with; the loop paths carry the obligations
                 key_find, dup_checked = key_ins, True
@@ -255,6 +278,10 @@ def check_unregister(rep, db, f, inst, style):
         n_do += 1
         erases = [i for i, e in enumerate(evs) if e.kind == "CALL" and q.short(e.a) == "erase" and e.c is not None and "callback_keys" in fmt(e.c)]
         finds = [i for i, e in enumerate(evs) if e.kind == "CALL" and q.short(e.a) == "find"]
+        if not finds:
+            # erase-remove idiom: std::remove(begin, end, key) plays the search (its result differs from end() iff the key was present),
+            # erase(result, end()) the removal
+            finds = [i for i, e in enumerate(evs) if e.kind == "CALL" and q.short(e.a) == "remove" and len((e.extra or {}).get("argvals", e.b)) == 3]
         locks = [i for i, e in enumerate(evs) if e.kind == "CALL" and q.short(e.a) in q.EXCLUSIVE_GUARDS and "callback_lock" in " ".join(fmt(a) for a in e.b)]
         unlocks = [i for i, e in enumerate(evs) if e.kind == "UNLOCK"]
         bad = None
@@ -310,7 +337,27 @@ def check_unregister(rep, db, f, inst, style):
                 bad = "existence of the key is not checked before erasing"
             else:
                 ea = (evs[erases[0]].extra or {}).get("argvals", evs[erases[0]].b)
-                if not any(q.mentions(a, lambda x: same_obj(p, x, fret)) for a in ea + list(evs[erases[0] - 1].b if evs[erases[0] - 1].kind == "CALL" else [])):
+
+                def resolve_it(x):
+                    # follow iterator copies and the iterator -> const_iterator converting constructor
+                    for _ in range(6):
+                        if isinstance(x, tuple) and x[:1] in (("var",), ("tmp",)):
+                            c_ = p.state.mem.get(("copyof", x))
+                            if c_ is not None:
+                                x = c_
+                                continue
+                            conv = next((e for e in evs if e.kind == "CALL" and (e.extra or {}).get("ret") == x and q.short(e.a) in ("__normal_iterator", "__wrap_iter") and
+                                         len((e.extra or {}).get("argvals", e.b)) == 1), None)
+                            if conv is not None:
+                                x = (conv.extra or {}).get("argvals", conv.b)[0]
+                                continue
+                        break
+                    return x
+                if q.short(evs[finds[0]].a) == "remove":
+                    # erase(result of remove, end()): exactly the occurrences of the key
+                    if not (len(ea) == 2 and resolve_it(ea[0]) == fret):
+                        bad = "the range erased does not start at the result of std::remove for the key"
+                elif not any(q.mentions(a, lambda x: same_obj(p, x, fret)) for a in ea + list(evs[erases[0] - 1].b if evs[erases[0] - 1].kind == "CALL" else [])):
                     bad = "the element erased is not the element found"
         if bad:
             rep.violation(rule, site(f), bad, f["loc"], inst)
